@@ -13,15 +13,18 @@ package builtins
 //@ guarded codecs &mutex
 
 //@ func RegisterCodec
-//@ props C09
+//@ props C09 C03
 //@ requires !ghost("lock.w", bool, &mutex) && !ghost("lock.r", bool, &mutex)
 //@ ensures[C09.released] !ghost("lock.w", bool, &mutex)
 
 //@ func GetCodec
-//@ props C09
+//@ props C09 C03
 //@ requires !ghost("lock.w", bool, &mutex) && !ghost("lock.r", bool, &mutex)
 //@ ensures[C09.released] !ghost("lock.r", bool, &mutex)
 
+// C03: lock balance of the codec table's mutex (see contracts/vm/contracts_locks_verif.go; seed C03h released the read
+// lock by hand in front of a recursive call and again in the deferred RUnlock - a runtime throw that ends the process).
+//@ scan[C03.locks.builtins] C03 extcalls sync.(*Mutex).Lock,sync.(*Mutex).Unlock,sync.(*Mutex).TryLock,sync.(*RWMutex).Lock,sync.(*RWMutex).Unlock,sync.(*RWMutex).RLock,sync.(*RWMutex).RUnlock: RegisterCodec GetCodec
 //@ scan[C09.codecs.users] C09 extcalls github.com/risor-io/risor/builtins.codecs: RegisterCodec GetCodec init
 
 // ---- C19: the built-in codecs use one encoding object in both directions ---------------------------------------
